@@ -293,9 +293,24 @@ type halfPipe struct {
 	reset  bool
 	wake   chan struct{}
 	nbytes int // total bytes ever written into this half
+	// drained is signalled whenever the reader empties buf or the pipe is
+	// reset; blocking writers (Stream.SyncWrites) wait on it.
+	drained chan struct{}
+	// readerGone is set when the reading end was closed: nobody will ever
+	// drain buf again, so blocking writers must not wait for that.
+	readerGone bool
 }
 
-func newHalf() *halfPipe { return &halfPipe{wake: make(chan struct{}, 1)} }
+func newHalf() *halfPipe {
+	return &halfPipe{wake: make(chan struct{}, 1), drained: make(chan struct{}, 1)}
+}
+
+func (h *halfPipe) signalDrained() {
+	select {
+	case h.drained <- struct{}{}:
+	default:
+	}
+}
 
 func (h *halfPipe) signal() {
 	select {
@@ -318,6 +333,11 @@ type Stream struct {
 	id       string
 	// Events records "write:<n>", "reset", "close", "closewrite" in order (local side).
 	Events []string
+	// SyncWrites makes Write block until the remote end has read everything
+	// (or the stream is reset), like a stream whose send window is exhausted.
+	SyncWrites bool
+	// OnEvent, when set, is called with every entry appended to Events.
+	OnEvent func(string)
 }
 
 // NewStreamPair creates a connected pair: a is the dialer's end (outbound),
@@ -351,7 +371,15 @@ func (s *Stream) SetReadDeadline(t time.Time) error {
 	return nil
 }
 
-func (s *Stream) event(e string) { s.mu.Lock(); s.Events = append(s.Events, e); s.mu.Unlock() }
+func (s *Stream) event(e string) {
+	s.mu.Lock()
+	s.Events = append(s.Events, e)
+	f := s.OnEvent
+	s.mu.Unlock()
+	if f != nil {
+		f(e)
+	}
+}
 
 // Dead reports whether the stream was reset or closed locally.
 func (s *Stream) Dead() bool {
@@ -383,7 +411,11 @@ func (s *Stream) Read(p []byte) (int, error) {
 		if len(s.in.buf) > 0 {
 			n := copy(p, s.in.buf)
 			s.in.buf = s.in.buf[n:]
+			empty := len(s.in.buf) == 0
 			s.in.mu.Unlock()
+			if empty {
+				s.in.signalDrained()
+			}
 			return n, nil
 		}
 		if s.in.eof {
@@ -432,6 +464,20 @@ func (s *Stream) Write(p []byte) (int, error) {
 	s.out.mu.Unlock()
 	s.out.signal()
 	s.event(fmt.Sprintf("write:%d", len(p)))
+	if s.SyncWrites {
+		for {
+			s.out.mu.Lock()
+			rst, left, gone := s.out.reset, len(s.out.buf), s.out.readerGone
+			s.out.mu.Unlock()
+			if rst {
+				return len(p), ErrReset
+			}
+			if left == 0 || gone {
+				break
+			}
+			<-s.out.drained
+		}
+	}
 	return len(p), nil
 }
 
@@ -454,7 +500,11 @@ func (s *Stream) Close() error {
 	s.mu.Lock()
 	s.closed = true
 	s.mu.Unlock()
+	s.in.mu.Lock()
+	s.in.readerGone = true
+	s.in.mu.Unlock()
 	s.in.signal()
+	s.in.signalDrained()
 	s.event("close")
 	return nil
 }
@@ -468,6 +518,7 @@ func (s *Stream) Reset() error {
 		h.reset = true
 		h.mu.Unlock()
 		h.signal()
+		h.signalDrained()
 	}
 	s.event("reset")
 	return nil
